@@ -205,6 +205,11 @@ func (p *Core) genXfer() []sim.Op {
 	if len(rs) == 0 || len(p.Order) >= p.Opt.MaxPkts {
 		return nil
 	}
+	if p.Opt.Forward > 0 && w.Intn(100) < 22 { // C43 hook: forward a multi-hop voucher back towards its origin
+		if ops := p.genForwardUnwind(); ops != nil {
+			return ops
+		}
+	}
 	ri := rs[w.Intn(len(rs))]
 	r := p.Routes[ri]
 	d := w.Intn(2)
@@ -301,6 +306,7 @@ func (p *Core) genXfer() []sim.Op {
 	}
 	memo := ""
 	if p.Opt.Forward > 0 && w.Intn(100) < p.Opt.Forward {
+		p.fwd().genDenom = denom // C43 hook: generator hint (lets the memo follow a voucher's path back)
 		memo = p.genForwardMemo(ri, d)
 	}
 	op.S = strings.Join([]string{denom, recv, tmo, memo}, ";")
@@ -496,6 +502,7 @@ func (p *Core) applyXfer(ci int, r *sim.TxResult) {
 	}
 	p.rlSend(ci, rt.ID[d], x.SrcDenom, x.Amount, ps.Seq(), ps)
 	p.tok.blockKinds["send"] = true
+	p.fwdOriginSent(ps) // C43 hook: a transfer whose memo asks for a packet forward
 	w.Stats.Probe("transfer_sent_" + rt.Kind)
 	w.Stats.NonTrivial(fmt.Sprintf("xfer:%s:alias=%v:burn=%v:%s", rt.Kind, x.Alias, x.Burn, classifyDenom(x.SrcDenom)))
 }
@@ -567,6 +574,7 @@ func (p *Core) tokApplyRelay(ci int, r *sim.TxResult, ps *PktState, lbl string) 
 	d := ps.Dir
 	srcPort, srcID := rt.Port[d], rt.ID[d]
 	dstPort, dstID := rt.Port[1-d], rt.ID[1-d]
+	p.fwdNoteTx(r) // C43 hook: the forwarding model reads the events of the packet transaction
 	switch lbl {
 	case "recv":
 		if x.RecvOK {
@@ -647,6 +655,7 @@ func (p *Core) tokApplyRelay(ci int, r *sim.TxResult, ps *PktState, lbl string) 
 		if ackIsSuccess(ps) {
 			p.rlAckSuccess(ci, srcID, x.SrcDenom, ps.Seq())
 			x.Settled = true
+			p.tokForwardSettled(ci, r, ps) // C43 hook: a forwarded leg was acknowledged with success
 			return
 		}
 		p.tokRefund(ci, ps, "error-ack")
@@ -814,6 +823,7 @@ func (p *Core) tokAfterBlock(ci int, res []*sim.TxResult) {
 		}
 		p.checkChannelEquations()
 	}
+	p.fwdAfterBlock(ci, now) // C43 hook: per-block oracles of the forwarding worlds
 }
 
 // checkTrackedEscrow (C31): the queried total escrow of every denomination equals the model
@@ -993,6 +1003,7 @@ func (p *Core) applyDonate(ci int, r *sim.TxResult) {
 // tokFinish: end-state oracles after the drain.
 func (p *Core) tokFinish() {
 	w := p.w
+	p.fwdFinish() // C43 hook: all-or-nothing after the drain
 	for _, tag := range p.Order {
 		ps := p.Pkts[tag]
 		if ps == nil || ps.X == nil {
